@@ -65,6 +65,22 @@ Proof.
   intros o x Hin. apply Hall. exact (in_combine_l _ _ _ _ Hin).
 Qed.
 
+(* histories with rebuilds: from C15_across_rebuilds_mod *)
+Theorem stats_rebuild_judge_sound mf :
+  I_id mf ->
+  forall p g0 ops l g outs,
+    steps mf (new_level p, g0) ops (l, g) outs ->
+    all_added_at p ops ->
+    stats_rebuild_b p (combine ops outs)
+            (s_added (st l)) (s_removed (st l)) (s_qty (st l)) (s_value (st l)) = true.
+Proof.
+  intros Hid p g0 ops l g outs Hs Hall.
+  pose proof (C15.C15_across_rebuilds_mod mf Hid p g0 ops l g outs Hs) as Hmod. cbv zeta in Hmod.
+  destruct Hmod as (_ & Ha & Hr & Hq & _ & Hv & Hp).
+  apply stats_rebuild_b_iff. apply StatsAgreeR_of_conclusions; try assumption.
+  exact (Hv Hall).
+Qed.
+
 (* ================================================================== *)
 (* C07                                                                 *)
 
